@@ -17,7 +17,9 @@ Transcribed from `aiuti/asyncio.py` (after the F6 repair):
   the future it was set up for.  On a loop that gets to run - the machine's standing assumption:
   every internal event due up to `t` fires before an input at `t` - the timer has fired by then,
   so `evictK` by key is the same thing; a loop that is *not running* while the clock advances
-  is outside the machine and is exercised by scripted scenarios, DESIGN.md §6.)
+  is outside the machine and is exercised by scripted scenarios, DESIGN.md §6.  Since fix 369f390
+  the retention time is stamped where the answer is set - which is what `resolve` has always done:
+  the `evict` entry is created at `now + ret` in the very step that resolves the future.)
 * `_get_next_batch`: the first item opens a batch; items are added while
   `len < max_batch_size` (read at every arrival, so it may be mutated); `batch_timeout` after
   the last arrival the batch is handed over.
